@@ -46,8 +46,8 @@ def cfg(suites, guard="variables", invariants=INVARIANTS):
 
 
 # Suites (bounds are defined in spec/I18n.tla, operator Params); each is exhaustive within its bounds.
-QUICK = ["q_text", "q_plural", "q_header", "q_trim", "q_trimpl", "q_context", "q_options", "q_calls"]
-THOROUGH = ["t_text", "t_text2", "t_plural", "t_trim", "t_trimpl", "t_context", "t_options", "t_calls"]
+QUICK = ["q_text", "q_plural", "q_header", "q_trim", "q_trimpl", "q_context", "q_options", "q_ws", "q_calls"]
+THOROUGH = ["t_text", "t_text2", "t_plural", "t_trim", "t_trimpl", "t_context", "t_options", "t_ws", "t_calls"]
 
 # Syntax / whitespace options of the environment a case is run under.  ONE dictionary per
 # profile is the source of both the rendering Environment and the options handed to
@@ -65,9 +65,17 @@ PROFILES = {
 OPTION_SUITES = ("q_options", "t_options")
 
 
-def syntax_options(profile, ws_inert):
+# whitespace options of the lexer a case was computed for by the spec (field `ws`, I18n.tla WsModes)
+WS_OPTIONS = {"trim": dict(trim_blocks=True), "lstrip": dict(lstrip_blocks=True),
+              "both": dict(trim_blocks=True, lstrip_blocks=True)}
+WS_SUITES = ("q_ws", "t_ws")
+
+
+def syntax_options(profile, ws_inert, ws="none"):
     o = dict(PROFILES[profile])
-    if profile == "alt" and ws_inert:
+    if ws != "none":
+        o.update(WS_OPTIONS[ws])
+    elif profile == "alt" and ws_inert:
         o.update(trim_blocks=True, lstrip_blocks=True)
     return o
 
@@ -171,7 +179,7 @@ def _strings(func, args):
 def profiles_for(c, line):
     """default always; the alternative syntax options for the option-matrix suites and a
     deterministic eighth of all other cases"""
-    if c.get("suite") in OPTION_SUITES or (hash(line) & 7) == 0:
+    if c.get("suite") in OPTION_SUITES + WS_SUITES or (hash(line) & 7) == 0:
         return ("default", "alt")
     return ("default",)
 
@@ -191,14 +199,14 @@ def check_case(line):
 def check_case_under(c, profile):
     from jinja2.ext import GETTEXT_FUNCTIONS, babel_extract
 
-    o = syntax_options(profile, c["feat"]["ws_inert"])
+    o = syntax_options(profile, c["feat"]["ws_inert"], c.get("ws", "none"))
     src = write_source(c["src"], o)
     policy = c["policy"]
     probs = []
     data = {d["w"]: (d["vals"] if isinstance(d["vals"], dict) else {}) for d in c["data"]}
     n = 0
     outs = {}
-    tag = "" if profile == "default" else f"[{profile} syntax options {o}] {src!r}: "
+    tag = "" if not o else f"[{profile} syntax options {o}] {src!r}: "
     # ---- extraction (per gettext style), with exactly the options of the rendering environment
     real_ex = {}
     for style, new in (("old", False), ("new", True)):
